@@ -5,6 +5,7 @@ import SJ.Proofs.SerHints
 import SJ.Proofs.SerValue
 import SJ.Proofs.Recognise
 import SJ.Proofs.SerUtf8
+import SJ.Proofs.Display
 /-!
 # C03 — serialiser output is well-formed JSON that denotes the data
 
@@ -16,6 +17,8 @@ Property theorems only; helper lemmas live in `SJ/Proofs/Ser*.lean`, `SJ/Proofs/
   (compact / pretty structural printers), `cstOf`, and the RFC 8259 grammar `Derives` with its
   denotation `den`;
 * programs: all `SVal` with `p.wf` (every seq/map length hint is `None` or `Some(exact)`);
+* `Display` / `{:#}` of a `Value`: `SJ.Model.Display` (the `io::Write` adapter over a `fmt::Formatter` whose sink has
+  an arbitrary failure policy; `from_utf8_unchecked` tracked by the flag `ub`), theorems `c03_display*`;
 * external printers: any `ext` with `ExtOK ext` (itoa prints decimal digits, ryu prints numbers).
 -/
 namespace SJ.Props.C03
@@ -212,18 +215,6 @@ example : valueLitsOK (.obj [([0x6b], .arr [.null, .num (.neg (-7)), .str [0x61,
       = .ok [0x7b, 0x22, 0x6b, 0x22, 0x3a, 0x5b, 0x6e, 0x75, 0x6c, 0x6c, 0x2c, 0x2d, 0x37, 0x2c, 0x22, 0x61, 0x5c, 0x22,
              0x62, 0x22, 0x5d, 0x7d] := ⟨rfl, rfl⟩
 
-/-- **C03 (Display) — partial.** In the model `format!("{}", v)` and `format!("{:#}", v)` *are* the two
-    serializers run on `ofValue v` (`Display for Value` calls `to_writer` / `to_writer_pretty` on an
-    adapter around the `fmt::Formatter`), so they agree with `to_string` / `to_string_pretty` by
-    definition. Missing: the adapter (`WriterFormatter::write`, `from_utf8_unchecked`) is not modelled;
-    that clause is carried by the correspondence (operation `disp`, every run). -/
-theorem c03_display_partial (ext : Ext) (v : JV) :
-    display ext v = serCompact ext (ofValue v) ∧ displayAlt ext v = serPretty ext [0x20, 0x20] (ofValue v) :=
-  ⟨rfl, rfl⟩
-
-example : (displayAlt ext0 (.arr [.arr []])).map List.flatten
-    = .ok [0x5b, 0x0a, 0x20, 0x20, 0x5b, 0x5d, 0x0a, 0x5d] := rfl
-
 /-- **C03 (UTF-8), per string.** Every buffer written for a string (`serialize_str`, `char`, unit variant
     names, field and variant names, `collect_str`, string keys) is either pure ASCII or a contiguous
     fragment of the input string whose neighbours in it are ASCII bytes — no buffer boundary falls
@@ -274,6 +265,215 @@ example : serCompact ext0 (.str [0xff]) = .ok [[0x22], [0xff], [0x22]] ∧
 /-- a `char` that is a surrogate (impossible in Rust) would be written as the three bytes `ED A0 80` -/
 example : (SVal.char 0xD800).utf8OK = false ∧ serCompact ext0 (.char 0xD800) = .ok [[0x22], [0xed, 0xa0, 0x80], [0x22]] ∧
     Spec.Utf8.validUtf8 [0xed, 0xa0, 0x80] = false := ⟨rfl, rfl, by decide⟩
+
+/-! ## `Display` / `{:#}` of a `Value`: the `io::Write` adapter over a `fmt::Formatter` (`Model.Display`) -/
+section display
+open SJ.Model.Display SJ.Proofs.Display
+
+/-- the serializer run inside `Display::fmt` (`to_writer` for `{}`, `to_writer_pretty` for `{:#}`) never
+    fails on a `Value` -/
+theorem value_bufs (ext : Ext) (hext : ExtOK ext) (v : JV) (alternate : Bool) :
+    ∃ bufs, (if alternate then serPretty ext defaultIndent (ofValue v) else serCompact ext (ofValue v)) = .ok bufs := by
+  have hi := SerValue.image_ofValue ext v
+  cases alternate with
+  | false =>
+    cases hr : serCompact ext (ofValue v) with
+    | error e => have := ((c03_error_iff ext hext (ofValue v) e).1).1 hr; rw [hi] at this; cases this
+    | ok bufs => exact ⟨bufs, by simp⟩
+  | true =>
+    cases hr : serPretty ext defaultIndent (ofValue v) with
+    | error e => have := ((c03_error_iff ext hext (ofValue v) e).2 defaultIndent).1 hr; rw [hi] at this; cases this
+    | ok bufs => exact ⟨bufs, by simp⟩
+
+/-- **C03 (Display, the adapter).** `<Value as Display>::fmt` on a formatter whose `alternate` flag is
+    `alternate` and which forwards to *any* sink: the serializer (`to_writer` / `to_writer_pretty`) succeeds
+    with some buffer list `bufs`, and running it through `WriterFormatter` (`write_all` → `write` →
+    `from_utf8_unchecked` → `write_str`, errors mapped to `io::Error` and back to `fmt::Error`) is
+    *feeding the non-empty buffers to the sink as `&str` fragments until it rejects one*
+    (`Sink.feed`): the same sink state, and `Err(fmt::Error)` exactly when a fragment was rejected. -/
+theorem c03_display_adapter (ext : Ext) (hext : ExtOK ext) (v : JV) (alternate : Bool) (sink : Sink) :
+    ∃ bufs, (if alternate then serPretty ext defaultIndent (ofValue v) else serCompact ext (ofValue v)) = .ok bufs ∧
+      (fmtValue ext v alternate sink).1.inner = (sink.feed (frags bufs)).1 ∧
+      (fmtValue ext v alternate sink).2 = if (sink.feed (frags bufs)).2 then .error .error else .ok () := by
+  obtain ⟨bufs, hb⟩ := value_bufs ext hext v alternate
+  refine ⟨bufs, hb, ?_⟩
+  obtain ⟨hw1, hw2⟩ := writeBufs_feed bufs ({ inner := sink } : Adapter)
+  obtain ⟨hf1, hf2⟩ := fmtValue_ok ext v alternate sink bufs hb
+  refine ⟨by rw [hf1, hw1], ?_⟩
+  rw [hf2, hw2]
+  cases (sink.feed (frags bufs)).2 <;> rfl
+
+/-- **C03 (Display).** For every `Value`: `format!("{}", v)` is `Ok` and its bytes are exactly those of
+    `to_string(v)`; `format!("{:#}", v)` is `Ok` with exactly the bytes of `to_string_pretty(v)` (the
+    two-space `PrettyFormatter`) — for a value whose `arbitrary_precision` literals are numbers these are
+    `render` / `layout "  "` of the value's image (`c03_value`); and on *any* sink that does not fail
+    `Display::fmt` returns `Ok(())`, having handed over the whole text. -/
+theorem c03_display (ext : Ext) (hext : ExtOK ext) (v : JV) :
+    (∃ s, Display.toString ext v = .ok s ∧ format ext v false = some s ∧
+      (valueLitsOK v = true → s = render (imageOfValue ext v))) ∧
+    (∃ s, toStringPretty ext v = .ok s ∧ format ext v true = some s ∧
+      (valueLitsOK v = true → s = layout [0x20, 0x20] (imageOfValue ext v))) ∧
+    (∀ alternate sink, (∀ acc f, sink.fails acc f = false) →
+      (fmtValue ext v alternate sink).2 = .ok () ∧
+      ∃ bufs, (if alternate then serPretty ext defaultIndent (ofValue v) else serCompact ext (ofValue v)) = .ok bufs ∧
+        (fmtValue ext v alternate sink).1.inner.accepted.flatten = sink.accepted.flatten ++ bufs.flatten) := by
+  have key : ∀ alternate sink, (∀ acc f, sink.fails acc f = false) →
+      (fmtValue ext v alternate sink).2 = .ok () ∧
+      ∃ bufs, (if alternate then serPretty ext defaultIndent (ofValue v) else serCompact ext (ofValue v)) = .ok bufs ∧
+        (fmtValue ext v alternate sink).1.inner.accepted.flatten = sink.accepted.flatten ++ bufs.flatten := by
+    intro alternate sink hs
+    obtain ⟨bufs, hb, h1, h2⟩ := c03_display_adapter ext hext v alternate sink
+    obtain ⟨hf, ha⟩ := feed_never (frags bufs) sink hs
+    refine ⟨by simpa [hf] using h2, bufs, hb, ?_⟩
+    rw [h1, ha, List.flatten_append, frags_flatten]
+  have fmt : ∀ alternate bufs,
+      (if alternate then serPretty ext defaultIndent (ofValue v) else serCompact ext (ofValue v)) = .ok bufs →
+      format ext v alternate = some bufs.flatten := by
+    intro alternate bufs hb
+    obtain ⟨h2, bufs', hb', h1⟩ := key alternate Sink.unbounded (fun _ _ => rfl)
+    rw [hb] at hb'; cases hb'
+    unfold format
+    cases hr : fmtValue ext v alternate Sink.unbounded with
+    | mk wr res =>
+      rw [hr] at h1 h2
+      simp only at h1 h2
+      subst h2
+      simpa [Sink.unbounded] using h1
+  refine ⟨?_, ?_, key⟩
+  · obtain ⟨bufs, hb⟩ := value_bufs ext hext v false
+    simp only [Bool.false_eq_true, if_false] at hb
+    refine ⟨bufs.flatten, by simp [Display.toString, hb, Except.map], fmt false bufs (by simpa using hb), fun hv => ?_⟩
+    obtain ⟨⟨bufs', hb', hr⟩, _⟩ := c03_value ext hext v hv
+    rw [hb] at hb'; cases hb'; exact hr
+  · obtain ⟨bufs, hb⟩ := value_bufs ext hext v true
+    simp only [if_true] at hb
+    refine ⟨bufs.flatten, by simp [toStringPretty, hb, Except.map], fmt true bufs (by simpa using hb), fun hv => ?_⟩
+    obtain ⟨_, hp, _⟩ := c03_value ext hext v hv
+    obtain ⟨bufs', hb', hr⟩ := hp defaultIndent
+    rw [hb] at hb'; cases hb'; exact hr
+
+/-- `[[]]` through the adapter into a `String`, `{:#}`: `[`, newline, two spaces, `[]`, newline, `]` -/
+example : format ext0 (.arr [.arr []]) true = some [0x5b, 0x0a, 0x20, 0x20, 0x5b, 0x5d, 0x0a, 0x5d] ∧
+    format ext0 (.arr [.arr []]) false = some [0x5b, 0x5b, 0x5d, 0x5d] ∧
+    toStringPretty ext0 (.arr [.arr []]) = .ok [0x5b, 0x0a, 0x20, 0x20, 0x5b, 0x5d, 0x0a, 0x5d] := ⟨rfl, rfl, rfl⟩
+
+/-- **C03 (Display, failing sink).** Whatever the sink's failure policy: the fragments it has accepted
+    when `Display::fmt` returns are the first `k` of the fault-free fragment list (so their concatenation
+    is a prefix of the `to_string` / `to_string_pretty` text `bufs.flatten`, cut at a buffer boundary);
+    the result is `Ok(())` iff nothing was rejected, and then the sink holds the whole text; otherwise it
+    is `Err(fmt::Error)` (never a panic, never `Ok` after a failure) and fragment number `k` is the one
+    the sink rejected — nothing is handed over after the first failure. For the byte-budget sink
+    (`Sink.budget m`: the `fmt::Write` analogue of `Model.IoFault.writeFault`) the result is
+    `Err(fmt::Error)` iff the text is longer than `m`, and never more than `m` bytes are held. -/
+theorem c03_display_fault (ext : Ext) (hext : ExtOK ext) (v : JV) (alternate : Bool) (sink : Sink) :
+    ∃ bufs, (if alternate then serPretty ext defaultIndent (ofValue v) else serCompact ext (ofValue v)) = .ok bufs ∧
+      ∃ k, (fmtValue ext v alternate sink).1.inner.accepted = sink.accepted ++ (frags bufs).take k ∧
+        ((frags bufs).take k).flatten <+: bufs.flatten ∧
+        ((fmtValue ext v alternate sink).2 = .ok () → ((frags bufs).take k).flatten = bufs.flatten) ∧
+        ((fmtValue ext v alternate sink).2 ≠ .ok () →
+          (fmtValue ext v alternate sink).2 = .error .error ∧
+          ∃ rej, (frags bufs)[k]? = some rej ∧ sink.fails (sink.accepted ++ (frags bufs).take k) rej = true) ∧
+        (∀ m, sink = Sink.budget m →
+          ((fmtValue ext v alternate sink).2 = .error .error ↔ m < bufs.flatten.length) ∧
+          (fmtValue ext v alternate sink).1.inner.accepted.flatten.length ≤ m) := by
+  obtain ⟨bufs, hb, h1, h2⟩ := c03_display_adapter ext hext v alternate sink
+  obtain ⟨k, hk1, _, hk3, hk4⟩ := feed_take (frags bufs) sink
+  refine ⟨bufs, hb, k, by rw [h1, hk1], ?_, ?_, ?_, ?_⟩
+  · rw [← frags_flatten bufs]
+    conv => rhs; rw [← List.take_append_drop k (frags bufs)]
+    rw [List.flatten_append]
+    exact List.prefix_append _ _
+  · intro hok
+    cases hrej : (sink.feed (frags bufs)).2 with
+    | true => rw [h2, hrej] at hok; cases hok
+    | false => rw [List.take_of_length_le (hk3 hrej), frags_flatten]
+  · intro hne
+    cases hrej : (sink.feed (frags bufs)).2 with
+    | false => rw [h2, hrej] at hne; exact absurd rfl hne
+    | true => exact ⟨by rw [h2, hrej]; rfl, hk4 hrej⟩
+  · intro m hm
+    subst hm
+    have hrej := feed_budget_rej m (frags bufs) (Sink.budget m) rfl (Nat.zero_le m)
+    have hle := feed_budget_le m (frags bufs) (Sink.budget m) rfl (Nat.zero_le m)
+    rw [frags_flatten] at hrej
+    refine ⟨?_, by rw [h1]; exact hle⟩
+    rw [h2, ← (by simpa [Sink.budget] using hrej :
+      ((Sink.budget m).feed (frags bufs)).2 = true ↔ m < bufs.flatten.length)]
+    cases ((Sink.budget m).feed (frags bufs)).2 <;> simp
+
+/-- `{"k":[null,-7,"a\"b"]}` into a sink with room for 3 bytes: `{`, `"`, `k` are accepted, the closing
+    quote of the key is rejected, the result is `Err(fmt::Error)`; with room for the 22 bytes, `Ok(())` -/
+example : (fmtValue ext0 (.obj [([0x6b], .arr [.null, .num (.neg (-7)), .str [0x61, 0x22, 0x62]])]) false (Sink.budget 3)).2
+      = .error .error ∧
+    (fmtValue ext0 (.obj [([0x6b], .arr [.null, .num (.neg (-7)), .str [0x61, 0x22, 0x62]])]) false (Sink.budget 3)).1.inner.accepted
+      = [[0x7b], [0x22], [0x6b]] ∧
+    (fmtValue ext0 (.obj [([0x6b], .arr [.null, .num (.neg (-7)), .str [0x61, 0x22, 0x62]])]) false (Sink.budget 22)).2
+      = .ok () := ⟨rfl, rfl, rfl⟩
+
+/-- **C03 (Display, `from_utf8_unchecked` is sound).** For every `Value` satisfying the representation
+    invariant (`Spec.WF.shapeOK c v`, in any configuration `c`: strings and keys are UTF-8 — they are Rust
+    `String`s — and `arbitrary_precision` literals are numbers; it is `WFValue` of C04 without the depth
+    bound), both `{}` and `{:#}`, and any sink: every buffer passed to `str::from_utf8_unchecked` in
+    `WriterFormatter::write` is valid UTF-8 on its own — the flag `ub` of the model is never set — and so
+    is every fragment the sink is offered. (From `c03_utf8`; the `// Safety:` comment of the source.) -/
+theorem c03_display_utf8_safe (ext : Ext) (hext : ExtOK ext) (c : Spec.Canon.Cfg) (v : JV)
+    (hv : Spec.WF.shapeOK c v = true) (alternate : Bool) (sink : Sink) :
+    (fmtValue ext v alternate sink).1.ub = false ∧
+    ∃ bufs, (if alternate then serPretty ext defaultIndent (ofValue v) else serCompact ext (ofValue v)) = .ok bufs ∧
+      (∀ b ∈ bufs, Spec.Utf8.validUtf8 b = true) ∧ (∀ f ∈ frags bufs, Spec.Utf8.validUtf8 f = true) ∧
+      ∀ k, Spec.Utf8.validUtf8 ((frags bufs).take k).flatten = true := by
+  obtain ⟨bufs, hb⟩ := value_bufs ext hext v alternate
+  have hu := ofValue_utf8OK c v hv
+  have hall : ∀ b ∈ bufs, Spec.Utf8.validUtf8 b = true := by
+    cases alternate with
+    | false => exact ((c03_utf8 ext hext (ofValue v) hu bufs).1 (by simpa using hb)).1
+    | true => exact ((c03_utf8 ext hext (ofValue v) hu bufs).2 defaultIndent (by decide) (by simpa using hb)).1
+  have hfr : ∀ f ∈ frags bufs, Spec.Utf8.validUtf8 f = true := fun f hf => hall f (mem_frags hf)
+  refine ⟨?_, bufs, hb, hall, hfr, fun k => SerUtf8.allV_flatten fun b hb' => hfr b (List.mem_of_mem_take hb')⟩
+  rw [(fmtValue_ok ext v alternate sink bufs hb).1]
+  exact writeBufs_ub bufs ({ inner := sink } : Adapter) hall
+
+/-- the hypothesis is needed: a `Value::String` holding the byte `FF` (impossible in Rust) would be passed to
+    `from_utf8_unchecked` as it is; `"é"` is not -/
+example : (fmtValue ext0 (.str [0xff]) false Sink.unbounded).1.ub = true ∧
+    Spec.WF.shapeOK {} (.str [0xff]) = false ∧
+    Spec.WF.shapeOK {} (.str [0xc3, 0xa9]) = true ∧
+    (fmtValue ext0 (.str [0xc3, 0xa9]) false Sink.unbounded).1.ub = false ∧
+    (fmtValue ext0 (.str [0xc3, 0xa9]) false Sink.unbounded).1.inner.accepted = [[0x22], [0xc3, 0xa9], [0x22]] :=
+  ⟨by decide, by decide, by decide, by decide, by decide⟩
+
+/-- **C03 (Display for Number).** `format!("{}", n)` of a `Number` — in the default representation
+    (`PosInt` / `NegInt` through `itoa`, a finite `Float` through `ryu`) and in the `arbitrary_precision`
+    one (the stored text) — is one `write_str` of exactly the text both serializers write for
+    `Value::Number(n)`, i.e. of `to_string(&n)`. (`Number` never holds a non-finite float:
+    `Number::from_f64`.) -/
+theorem c03_display_number (ext : Ext) (hext : ExtOK ext) (n : Num) (hfin : ∀ b, n = .float b → finite64 b = true) :
+    fmtNumber ext n Sink.unbounded = .ok { Sink.unbounded with accepted := [numberText ext n] } ∧
+    serCompact ext (ofValue (.num n)) = .ok [numberText ext n] ∧
+    (∀ indent, serPretty ext indent (ofValue (.num n)) = .ok [numberText ext n]) ∧
+    Display.toString ext (.num n) = .ok (numberText ext n) ∧
+    format ext (.num n) false = some (numberText ext n) := by
+  have hser : serCompact ext (ofValue (.num n)) = .ok [numberText ext n] ∧
+      ∀ indent, serPretty ext indent (ofValue (.num n)) = .ok [numberText ext n] := by
+    cases n with
+    | pos k => exact ⟨rfl, fun _ => rfl⟩
+    | neg k => exact ⟨rfl, fun _ => rfl⟩
+    | float b =>
+      have hb := hfin b rfl
+      simp [ofValue, serCompact, serPretty, ser, hb, numberText, write, Except.map]
+    | lit s => exact ⟨rfl, fun _ => rfl⟩
+  have hts : Display.toString ext (.num n) = .ok (numberText ext n) := by
+    simp [Display.toString, hser.1, Except.map]
+  refine ⟨by simp [fmtNumber, Sink.writeStr, Sink.unbounded], hser.1, hser.2, hts, ?_⟩
+  obtain ⟨⟨s, h1, h2, _⟩, _⟩ := c03_display ext hext (.num n)
+  rw [hts] at h1; cases h1; exact h2
+
+/-- `-7`, `1.5` (the stand-in `ryu`), and the literal `1e999` of an `arbitrary_precision` build -/
+example : numberText ext0 (.neg (-7)) = [0x2d, 0x37] ∧ numberText ext0 (.float 0x3ff8000000000000) = [0x31, 0x2e, 0x35] ∧
+    format ext0 (.num (.lit [0x31, 0x65, 0x39, 0x39, 0x39])) false = some [0x31, 0x65, 0x39, 0x39, 0x39] ∧
+    format ext0 (.num (.neg (-7))) true = some [0x2d, 0x37] := ⟨rfl, rfl, rfl, rfl⟩
+
+end display
 
 /-- **C03 (the checker of the implementation's bytes is sound).** Whatever the independent recogniser
     used by the correspondence run accepts is an RFC 8259 JSON text with the returned syntax tree; in its
